@@ -660,6 +660,33 @@ def c01_extra(tier, seed, lean):
             res['w'].append(dict(msg='C01 the wrapper monitor crashed (%s %s): %s' % (cxx, std, out[-400:]), op='harness/wrappers.cpp', config=key, case=[], impl=''))
     res['cases'] = len(checks)
     res['info'].update(c01_wrapper_checks=checks)
+    # statistics (no verdict): how many of the protocol lines the correspondence compares are instances of what the history
+    # theorems are about — svcover evaluates Bridge.toMOp and the DECIDABLE precondition MOp.valid on the states reached
+    try:
+        with vlib.Lock('lean'):
+            rc, out = vlib.lake_build(['svcover'])
+        cover = os.path.join(vlib.LEAN, '.lake', 'build', 'bin', 'svcover')
+        if rc == 0 and os.path.exists(cover):
+            tot = dict(valid=0, bridged=0, covered=0, lines=0)
+            for cfg in (vlib.Config('Et', 3, 1, '00000'), vlib.Config('En', 1, 3, '01000'), vlib.Config('Et', 1, 3, '00010')):
+                lines = []
+                for i, c in enumerate(vlib.cases_for(cfg, 'quick', seed)):
+                    if i % (23 if tier == 'quick' else 5):
+                        continue
+                    lines.append('reset')
+                    lines += c['lines']
+                rc2, o = vlib.run([cover] + cfg.driver_args(), inp='\n'.join(lines) + '\n', timeout=600)
+                m = re.search(r'valid=(\d+) bridged=(\d+) covered=(\d+)', o)
+                if m:
+                    tot['valid'] += int(m.group(1)); tot['bridged'] += int(m.group(2)); tot['covered'] += int(m.group(3)); tot['lines'] += len(lines)
+            res['info'].update(history_theorem_coverage_of_protocol_lines=dict(
+                sampled_lines=tot['lines'], valid_calls=tot['valid'], with_counterpart_in_history_language=tot['bridged'],
+                satisfying_its_precondition_in_the_state_reached=tot['covered'],
+                note='Bridge.toMOp / MOp.valid evaluated by svcover on every k-th generated case of three configurations; the remaining valid calls are single-pass ranges, element access and the default constructor'))
+        else:
+            res['info'].update(history_theorem_coverage_error=out[-300:])
+    except Exception as e:
+        res['info'].update(history_theorem_coverage_error=str(e)[:200])
     if tier == 'thorough':
         # measurement of the tie itself (not a verdict): which lines / function bodies of the header the correspondence
         # programs execute; cached per header + harness fingerprint
